@@ -143,6 +143,19 @@ def tmpl_concat(a, b):
     return out
 
 
+def cuts_of(infos):
+    """(skip, drop) records of slice holes"""
+    out = []
+    for i in infos:
+        try:
+            d = dict(i)
+        except (TypeError, ValueError):
+            continue
+        if "skip" in d or "drop" in d:
+            out.append(tuple(sorted((k, v) for k, v in d.items() if k in ("skip", "drop"))))
+    return out
+
+
 class Overflow(Exception):
     pass
 
@@ -468,6 +481,14 @@ class Evaluator:
         idx = e["i"]
         if isinstance(base, Str) and idx["k"] == "range":
             p.ret = self.slice_str(base, idx, p)
+            if isinstance(p.ret, Str) and idx.get("hi") is not None:
+                # length of the slice as a polynomial over the length of the sliced text: len - skipped - dropped
+                cut = [part[2] for t in p.ret.t for part in t if part[0] == "hole" and len(part) > 2]
+                cuts = {(dict(c).get("skip", 0), dict(c).get("drop", 0)) for c in cuts_of(cut)}
+                if len(cuts) == 1:
+                    sk, dr = next(iter(cuts))
+                    base_len = getattr(base, "lenpoly", None) or p_var("len(" + self.describe(e["e"]) + ")")
+                    p.ret.lenpoly = p_add(base_len, p_const(sk + dr), -1)
         else:
             self.ev1(idx, p) if idx["k"] != "range" else None
             p.ret = Top("index")
@@ -846,6 +867,8 @@ class Evaluator:
         if m == "len" and not args:
             if isinstance(recv, Str) and len(recv.t) == 1 and len(next(iter(recv.t))) == 1 and next(iter(recv.t))[0][0] == "lit":
                 p.ret = Num("usize", p_const(len(next(iter(recv.t))[0][1])))
+            elif isinstance(recv, Str) and getattr(recv, "lenpoly", None) is not None:
+                p.ret = Num("usize", recv.lenpoly)
             else:
                 p.ret = Num("usize", p_var("len(" + self.describe(recv_node) + ")"))
             return [p]
@@ -961,6 +984,9 @@ class Evaluator:
                 if isinstance(hv, Num) and hv.poly is not None:
                     return p_add(hv.poly, skip.poly, -1)
                 return None
+            rv = self.ev1(r, p.fork())
+            if isinstance(rv, Str) and getattr(rv, "lenpoly", None) is not None:
+                return rv.lenpoly
             return p_var("len(" + self.describe(r) + ")")
         return None
 
